@@ -318,6 +318,9 @@ pub fn gen(rng: &mut Rng, focus: SFocus) -> ServerScn {
     } else if focus == SFocus::General && rng.chance(100) {
         // a log-only (formatting) subscriber
         1
+    } else if focus == SFocus::General && rng.chance(100) {
+        // the OpenTelemetry layer: the handler's context is derived from the RPC span
+        2
     } else {
         0
     };
@@ -326,8 +329,15 @@ pub fn gen(rng: &mut Rng, focus: SFocus) -> ServerScn {
         // one or two requests with deadlines years ahead whose handlers never finish
         script.truncate(2);
         handlers.truncate(2);
+        let mut total_days = 0u64;
         for a in script.iter_mut() {
-            a.delay_ms = 0;
+            // a request may also be the first thing that happens on a connection that has been
+            // quiet for months (nothing has advanced the timer queue), or arrive while an
+            // earlier request's timer has been pending for more than a year
+            let days = *rng.pick(&[0u64, 0, 0, 70, 200, 380, 440, 600]);
+            let days = if total_days + days > 700 { 0 } else { days };
+            total_days += days;
+            a.delay_ms = days * 86_400_000;
             a.kind = PeerKind::Req { id: IdRef::Fresh, deadline: Dl::Secs(*rng.pick(&[400u64, 700, 1278, 1500, 3650, 10_950]) * 86_400), sampled: false, untraced: false };
         }
         for h in handlers.iter_mut() {
@@ -1293,7 +1303,7 @@ pub fn check(scn: &ServerScn, log: &[Ev], sim: &Sim, node: u8) -> Vec<Violation>
             }
             // a request that arrives already expired is given a zero-length timer when it is
             // read: "afterwards" is counted from whichever is later
-            if rsp.1 >= i.deadline.max(i.read_t).saturating_add(2) && !extreme {
+            if rsp.1 >= i.deadline.max(i.read_t).saturating_add(2) && (!extreme || scn.long) {
                 let mut tags = vec![];
                 if limit.is_some() {
                     tags.push("limit");
@@ -1355,7 +1365,7 @@ pub fn check(scn: &ServerScn, log: &[Ev], sim: &Sim, node: u8) -> Vec<Violation>
                 && !i.finish.map(|f| f < *iseq).unwrap_or(false)
                 && !i.hdrop.map(|d| d.0 < *iseq).unwrap_or(false)
                 && !i.unrun.map(|d| d < *iseq).unwrap_or(false);
-            if running && *it >= i.deadline.max(i.read_t).saturating_add(2) && !extreme {
+            if running && *it >= i.deadline.max(i.read_t).saturating_add(2) && (!extreme || scn.long) {
                 let mut tags = vec![];
                 if limit.is_some() {
                     tags.push("limit");
@@ -1612,6 +1622,17 @@ pub fn check(scn: &ServerScn, log: &[Ev], sim: &Sim, node: u8) -> Vec<Violation>
                         v.push(viol("C18", "span-not-fresh", &["server"], format!("tag {}: handler span {span:x} equals the transmitted span", i.tag)));
                     }
                 }
+                if scn.subscriber == 2 && i.trace != 0 {
+                    // with the OpenTelemetry layer the handler's context comes from the RPC span,
+                    // whose remote parent is the transmitted context: same trace, same sampling
+                    // decision (parent-based sampler), a span id of its own
+                    if *trace != i.trace || *sampled != i.sampled {
+                        v.push(viol("C18", "handler-mismatch", &["otel"], format!("tag {}: handler saw trace {trace:x}/{sampled}, request carried {:x}/{}", i.tag, i.trace, i.sampled)));
+                    }
+                    if *span == i.span || *span == 0 {
+                        v.push(viol("C18", "span-not-fresh", &["server", "otel"], format!("tag {}: handler span {span:x} equals the transmitted span", i.tag)));
+                    }
+                }
                 if *deadline_ms != i.deadline {
                     v.push(viol("C07", if *deadline_ms < i.deadline { "earlier" } else { "stretched" }, &["in-memory"], format!("tag {}: request deadline {}, handler observed {}", i.tag, i.deadline, deadline_ms)));
                 }
@@ -1641,7 +1662,33 @@ pub fn check(scn: &ServerScn, log: &[Ev], sim: &Sim, node: u8) -> Vec<Violation>
         } else {
             "C08"
         };
-        v.push(viol(prop, "panic", &[crate::panic_class(msg), "server"], format!("task {} panicked: {}", sim.names.borrow()[*task], msg)));
+        let mut tags = vec![crate::panic_class(msg), "server"];
+        if tags[0] == "timer-range" {
+            let t_panic = log.iter().rev().find(|e| e.task as usize == *task).map(|e| e.t).unwrap_or(0);
+            let armed: Vec<(i64, i64, i64)> = m
+                .incs
+                .iter()
+                // tracked: yielded or throttled; plus what was being read when the panic struck
+                .filter(|i| i.yielded.is_some() || !i.resp.is_empty() || i.read_t == t_panic)
+                .map(|i| {
+                    let mut end = i64::MAX;
+                    for r in &i.resp {
+                        end = end.min(r.1);
+                    }
+                    if let Some(h) = i.hdrop {
+                        end = end.min(h.1);
+                    }
+                    if let Some(c) = i.cancel_read {
+                        end = end.min(m.t(c));
+                    }
+                    (i.read_t, i.deadline, end)
+                })
+                .collect();
+            if crate::profiles::timer_queue_stale(&armed, t_panic) {
+                tags.push("stale-timer-queue");
+            }
+        }
+        v.push(viol(prop, "panic", &tags, format!("task {} panicked: {}", sim.names.borrow()[*task], msg)));
     }
     let _ = BTreeMap::<u8, u8>::new();
     v
